@@ -294,37 +294,41 @@ func (s *Stream) close() error {
 	if oldState == uint32(streamClosed) {
 		return nil
 	}
+	for !atomic.CompareAndSwapUint32(&s.state, oldState, uint32(streamClosed)) {
+		// the state was changed concurrently (e.g. the peer's close just arrived), retry with the new state.
+		if oldState = s.getStreamState(); oldState == uint32(streamClosed) {
+			return nil
+		}
+	}
 
-	if atomic.CompareAndSwapUint32(&s.state, oldState, uint32(streamClosed)) {
-		if s.getCallbacks() != nil {
-			s.asyncGoroutineWg.Wait()
-		}
-		s.clean()
-		if oldState == uint32(streamOpened) {
-			s.safeCloseNotify()
-			callback := s.getCallbacks()
-			if callback != nil {
-				if s.session.IsClosed() {
-					callback.OnRemoteClose()
-				} else {
-					callback.OnLocalClose()
-				}
-			}
+	if s.getCallbacks() != nil {
+		s.asyncGoroutineWg.Wait()
+	}
+	s.clean()
+	if oldState == uint32(streamOpened) {
+		s.safeCloseNotify()
+		callback := s.getCallbacks()
+		if callback != nil {
 			if s.session.IsClosed() {
-				return nil
+				callback.OnRemoteClose()
+			} else {
+				callback.OnLocalClose()
 			}
-			// notify peer
-			err := s.session.sendQueue().put(queueElement{seqID: s.id, status: uint32(streamClosed)})
-			if err != nil {
-				atomic.AddUint64(&s.session.stats.queueFullErrorCount, 1)
-				// notify fallback
-				var streamCloseEvent [headerSize + 4]byte
-				header(streamCloseEvent[:]).encode(headerSize+4, s.session.communicationVersion, typeStreamClose)
-				binary.BigEndian.PutUint32(streamCloseEvent[headerSize:], s.id)
-				return s.session.waitForSend(nil, streamCloseEvent[:])
-			}
-			return s.session.wakeUpPeer()
 		}
+		if s.session.IsClosed() {
+			return nil
+		}
+		// notify peer
+		err := s.session.sendQueue().put(queueElement{seqID: s.id, status: uint32(streamClosed)})
+		if err != nil {
+			atomic.AddUint64(&s.session.stats.queueFullErrorCount, 1)
+			// notify fallback
+			var streamCloseEvent [headerSize + 4]byte
+			header(streamCloseEvent[:]).encode(headerSize+4, s.session.communicationVersion, typeStreamClose)
+			binary.BigEndian.PutUint32(streamCloseEvent[headerSize:], s.id)
+			return s.session.waitForSend(nil, streamCloseEvent[:])
+		}
+		return s.session.wakeUpPeer()
 	}
 	return nil
 }
